@@ -43,6 +43,19 @@ CountsVerdict(e) ==
      ELSE IF SumTo(e.counts, Len(e.counts)) # e.n THEN "C13.in-gamut"
      ELSE "ok"
 
+(* unbounded sources: the gamut is apex + cone(columns of M); samples with a requested total must lie in it      *)
+(* (pts - apex in the cone, facet normals exact) and on the plane of that total                                    *)
+L1ConeVerdict(e, mem) ==
+  LET CF == ConeFacets(e.M)
+      d == Len(e.M)
+  IN IF e.count # e.n THEN "C13.count"
+     ELSE IF \E k \in 1..Len(e.pts) : Abs(Sum(e.pts[k]) - e.l1S) > e.tol * d THEN "C13.l1-total"
+     ELSE IF \E k \in 1..Len(e.pts) : \E nu \in CF :
+               Dot(nu, [i \in 1..d |-> e.pts[k][i] - e.apexS[i]]) < -e.tol * SumTo([i \in 1..d |-> Abs(nu[i])], d)
+          THEN "C13.in-gamut"
+     ELSE IF mem # <<>> /\ mem # e.pts THEN "C13.same-seed-same-samples"
+     ELSE "ok"
+
 (* central symmetry: the gamut of a bounded system is a zonotope, symmetric about the capture of the mid-point   *)
 (* intensities, so a uniform sample puts equally many points beyond  u.(x - c) > t  and beyond  u.(x - c) < -t   *)
 (* for every direction u and offset t (counts recorded by the harness; 6 sigma of a fair split)                   *)
@@ -55,11 +68,12 @@ Next == /\ l <= Len(Events)
         /\ LET e == Events[l]
                v == IF e.ev = "sample" THEN SampleVerdict(e, memo[e.key])
                     ELSE IF e.ev = "l1" THEN L1Verdict(e, memo[e.key])
+                    ELSE IF e.ev = "l1cone" THEN L1ConeVerdict(e, memo[e.key])
                     ELSE IF e.ev = "sym" THEN SymVerdict(e)
                     ELSE CountsVerdict(e)
            IN /\ (v # "ok" => PrintT(<<"BAD", e.i, v>>))
               /\ TLCSet(1, l)
-              /\ memo' = IF e.ev \in {"sample", "l1"} /\ memo[e.key] = <<>> THEN [memo EXCEPT ![e.key] = e.pts] ELSE memo
+              /\ memo' = IF e.ev \in {"sample", "l1", "l1cone"} /\ memo[e.key] = <<>> THEN [memo EXCEPT ![e.key] = e.pts] ELSE memo
               /\ nbad' = nbad + (IF v = "ok" THEN 0 ELSE 1)
         /\ l' = l + 1
 Spec == Init /\ [][Next]_vars
